@@ -880,15 +880,36 @@ func decodeGeneric(b []byte) (n datamodel.Node, err error) {
 	return nb.Build(), nil
 }
 
-func streamLine(out *reg.Out, b []byte) (string, []message.GraphSyncMessage) {
+// chunkReader hands out its data in small pieces (n bytes per Read), like a network stream does.
+type chunkReader struct {
+	b []byte
+	n int
+}
+
+func (c *chunkReader) Read(p []byte) (int, error) {
+	if len(c.b) == 0 {
+		return 0, io.EOF
+	}
+	k := c.n
+	if k > len(p) {
+		k = len(p)
+	}
+	if k > len(c.b) {
+		k = len(c.b)
+	}
+	copy(p, c.b[:k])
+	c.b = c.b[k:]
+	return k, nil
+}
+
+// readStream decodes a byte stream message by message through one public entry point until it
+// fails: `next` is called repeatedly on the same underlying reader.
+func readStream(out *reg.Out, what string, next func() (message.GraphSyncMessage, error)) (string, []message.GraphSyncMessage) {
 	var nfs []string
 	var msgs []message.GraphSyncMessage
 	end := "err"
-	reader := msgio.NewVarintReaderSize(bytes.NewReader(b), network.MessageSizeMax)
 	for {
-		r, hung := guarded(out, "FromMsgReader", func() (message.GraphSyncMessage, error) {
-			return handler.FromMsgReader(peer.ID("p"), reader)
-		})
+		r, hung := guarded(out, what, next)
 		if hung {
 			break
 		}
@@ -903,6 +924,57 @@ func streamLine(out *reg.Out, b []byte) (string, []message.GraphSyncMessage) {
 		nfs = append(nfs, nf(r.m))
 	}
 	return strings.Join(append([]string{fmt.Sprintf("%d %s", len(nfs), end)}, nfs...), " | "), msgs
+}
+
+type streamPath struct {
+	name string
+	line string
+	msgs []message.GraphSyncMessage
+}
+
+// streamPaths reads the same bytes through every public way of reading a stream of messages:
+// FromMsgReader on one msgio reader (what handleNewStream does), and successive FromNet calls on one
+// plain io.Reader -- a bytes.Reader, a reader that returns one byte per Read, and one that returns
+// 7-byte chunks.
+func streamPaths(out *reg.Out, b []byte) []streamPath {
+	var ps []streamPath
+	mr := msgio.NewVarintReaderSize(bytes.NewReader(b), network.MessageSizeMax)
+	l, m := readStream(out, "FromMsgReader", func() (message.GraphSyncMessage, error) {
+		return handler.FromMsgReader(peer.ID("p"), mr)
+	})
+	ps = append(ps, streamPath{"FromMsgReader(one msgio reader)", l, m})
+	readers := []struct {
+		name string
+		r    io.Reader
+	}{
+		{"FromNet x n (bytes.Reader)", bytes.NewReader(b)},
+		{"FromNet x n (1 byte per Read)", &chunkReader{b: b, n: 1}},
+		{"FromNet x n (7 bytes per Read)", &chunkReader{b: b, n: 7}},
+	}
+	for _, rd := range readers {
+		if len(b) > 1<<20 && rd.name != "FromNet x n (bytes.Reader)" {
+			continue // keep the 4 MiB cases cheap
+		}
+		r := rd.r
+		l, m := readStream(out, rd.name, func() (message.GraphSyncMessage, error) {
+			return handler.FromNet(peer.ID("p"), r)
+		})
+		ps = append(ps, streamPath{rd.name, l, m})
+	}
+	return ps
+}
+
+// streamLine: the common result of all entry points (a disagreement between them is printed, and
+// therefore diverges from the model, which has one notion of reading a stream).
+func streamLine(out *reg.Out, b []byte) (string, []streamPath) {
+	ps := streamPaths(out, b)
+	for _, p := range ps[1:] {
+		if p.line != ps[0].line {
+			out.Cov("stream:entry-points-differ")
+			return fmt.Sprintf("entry-points-differ [%s] %s <> [%s] %s", ps[0].name, ps[0].line, p.name, p.line), ps
+		}
+	}
+	return ps[0].line, ps
 }
 
 func runOp(out *reg.Out, builder bool, op []string) string {
@@ -975,17 +1047,21 @@ func runOp(out *reg.Out, builder bool, op []string) string {
 			}
 			p.next() // ";"
 		}
-		line, got := streamLine(out, buf.Bytes())
-		if len(got) != len(ms) {
-			out.Fail("stream-order", "%d messages written, %d read back", len(ms), len(got))
-		} else {
+		line, paths := streamLine(out, buf.Bytes())
+		// C11: through every entry point, all messages in order, then EOF
+		for _, p := range paths {
+			got := p.msgs
+			if len(got) != len(ms) {
+				out.Fail("stream-order", "%s: %d messages written, %d read back", p.name, len(ms), len(got))
+				continue
+			}
 			for i := range ms {
 				if why := equivMsg(ms[i], got[i]); why != "" {
-					out.Fail("stream-order", "message %d of the stream: %s", i, why)
+					out.Fail("stream-order", "%s: message %d of the stream: %s", p.name, i, why)
 				}
 			}
-			if !strings.Contains(line, " eof") {
-				out.Fail("stream-order", "stream of well-formed messages did not end with EOF")
+			if !strings.HasPrefix(p.line, fmt.Sprintf("%d eof", len(ms))) {
+				out.Fail("stream-order", "%s: stream of well-formed messages did not end with EOF", p.name)
 			}
 		}
 		out.CovN("streamrt:msgs", len(ms))
@@ -1008,8 +1084,8 @@ func runOp(out *reg.Out, builder bool, op []string) string {
 		if err != nil {
 			return "bad-op"
 		}
-		line, ms := streamLine(out, b)
-		out.CovN("stream:msgs", len(ms))
+		line, paths := streamLine(out, b)
+		out.CovN("stream:msgs", len(paths[0].msgs))
 		return line
 	case "cbor":
 		b, err := unhx(op[1])
